@@ -75,18 +75,23 @@ SPECS["C16"] = dict(
     ],
 )
 
+C11_STUB = "(*git.arvados.org/arvados.git/sdk/go/keepclient.KeepClient).uploadToKeepServer=gosymUpload"
 SPECS["C12"] = dict(
     level="model_checking",
-    outside="more than 4 (quick) / 5 (thorough) services (the statement speaks of up to 32); python keep.py; MD5 ties between distinct services",
+    outside="more than 4 (quick) / 5 (thorough) services in the sorter, 2-3 in the write-order and balancer runs (the statement speaks of up to 32); python keep.py; MD5 ties between distinct services",
     assumptions=["MD5 modelled as an uninterpreted function per input length; pairwise distinct weights assumed (no MD5 ties)",
                  "map iteration order explored exhaustively (all permutations) for the sorter harness"],
     runs=[
-        dict(name="sorter", pkg="sdk/go/keepclient", harness=["keepclient/c12_sorter.go"], entry="GosymH_C12_sorter", maporder="all",
+        dict(name="sorter", pkg="sdk/go/keepclient", harness=["keepclient/c12_sorter.go", "keepclient/c11_put.go"], entry="GosymH_C12_sorter", maporder="all",
              params=dict(quick=dict(services=3, uuid27=1), thorough=dict(services=4, uuid27=1)), witnesses=["done", "removal-checked"]),
-        dict(name="sorter-shortuuid", pkg="sdk/go/keepclient", harness=["keepclient/c12_sorter.go"], entry="GosymH_C12_sorter", maporder="all",
+        dict(name="sorter-shortuuid", pkg="sdk/go/keepclient", harness=["keepclient/c12_sorter.go", "keepclient/c11_put.go"], entry="GosymH_C12_sorter", maporder="all",
              params=dict(quick=dict(services=2, uuid27=0), thorough=dict(services=3, uuid27=0)), witnesses=["done"]),
-        dict(name="hints", pkg="sdk/go/keepclient", harness=["keepclient/c12_sorter.go"], entry="GosymH_C12_hints",
+        dict(name="hints", pkg="sdk/go/keepclient", harness=["keepclient/c12_sorter.go", "keepclient/c11_put.go"], entry="GosymH_C12_hints",
              params=dict(quick=dict(hints=2), thorough=dict(hints=3)), witnesses=["done"]),
+        dict(name="put-order", pkg="sdk/go/keepclient", harness=["keepclient/c12_sorter.go", "keepclient/c11_put.go"], entry="GosymH_C12_putorder", stubs=[C11_STUB], replay="engine",
+             params=dict(quick=dict(services=2), thorough=dict(services=3)), witnesses=["done"]),
+        dict(name="balancer", pkg="services/keep-balance", harness=["keepbalance/c12_rank.go", "keepbalance/c05_balance.go", "keepbalance/util.go"], entry="GosymH_C12_balancer",
+             params=dict(quick=dict(servers=2), thorough=dict(servers=3)), witnesses=["trashed-all-but-first", "pulled-to-first"]),
     ],
 )
 
@@ -196,7 +201,6 @@ SPECS["C03"] = dict(
     ],
 )
 
-C11_STUB = "(*git.arvados.org/arvados.git/sdk/go/keepclient.KeepClient).uploadToKeepServer=gosymUpload"
 SPECS["C11"] = dict(
     level="model_checking",
     technique="bounded symbolic execution of go/ssa: exhaustive solver-pruned exploration of outcome tables and message-arrival orders",
